@@ -1,6 +1,7 @@
 /-
   EigenSem.lean — the FIXED TABLE giving a meaning to the Eigen 3.4 constructs that occur in the
-  bodies of the `*Impl` classes of pettni/smooth (include/smooth/detail/{so2,c1,tn,se2,so3,se3}.hpp).
+  bodies of the `*Impl` classes of pettni/smooth (include/smooth/detail/{so2,c1,tn,se2,so3,se3,galilei,
+  se_k_3}.hpp).
 
   tools/gen_impl.py (run through tools/gen_src.py on every check) transliterates those bodies
   statement by statement into `SmoothModel/Gen/ImplSrc.lean`; every Eigen construct is mapped to one
@@ -25,6 +26,10 @@
     `.head<k>() .tail<k>() .segment<k>(o) .block<r,c>(i,j) .topLeftCorner<r,c>() … .col(j) .row(i)
      .middleCols<k>(j) .transpose()`                   index arithmetic only
     `x << e0, e1, …`                                   row-major fill (CommaInitializer.h)
+    `Eigen::Ref<[const] T> x = <block>`                a VIEW of the block, not a copy (Ref.h): later
+         writes to the viewed object are seen through x; writes through a non-const x go to it
+    `B.setIdentity()` on a 1×1 block                   the scalar 1
+    `for (auto i = 0u; i < K; ++i)`, K a template parameter   forLoop (below)
   Geometry (Eigen/src/Geometry/Quaternion.h), coefficient order (x y z w):
     `q.toRotationMatrix()`   lines 592–624                                         quatToRot
     `q1 * q2`                lines 487–498, the generic `quat_product`             quatMul
@@ -97,6 +102,22 @@ def setBlock {n m nr nc} (M : Mat α n m) (r0 c0 : Nat) (B : Mat α nr nc) : Mat
 def setBlockCol {n m nr} (M : Mat α n m) (r0 c0 : Nat) (w : Vec α nr) : Mat α n m :=
   .of (fun i j =>
     if h : (r0 ≤ i.val ∧ i.val < r0 + nr) ∧ j.val = c0 then w ⟨i.val - r0, by omega⟩ else M i j)
+
+/-! ### loops whose bound is a symbolic template parameter (`for (auto i = 0u; i < K; ++i) { … }`)
+The translator unrolls loops with a literal bound; a loop over the template parameter `K` of
+`SE_K_3Impl<Scalar, K>` is kept as a loop: the body becomes a state transformer (the state is the
+one variable the body assigns), applied for `i = 0, 1, …, K − 1` in this order.  The body receives
+`i < K`, which the index-bound proofs (`by omega`) of the block reads inside it use. -/
+
+/-- the state after the first `j` iterations -/
+def forLoopAux {σ : Type} (K : Nat) (body : (i : Nat) → i < K → σ → σ) (init : σ) :
+    (j : Nat) → j ≤ K → σ
+  | 0, _ => init
+  | j + 1, h => body j (by omega) (forLoopAux K body init j (by omega))
+
+/-- `for (auto i = 0u; i < K; ++i) s = body i s;` -/
+def forLoop {σ : Type} (K : Nat) (body : (i : Nat) → i < K → σ → σ) (init : σ) : σ :=
+  forLoopAux K body init K (Nat.le_refl K)
 
 /-! ### quaternions: a quaternion is its coefficient vector (x y z w) -/
 
